@@ -86,18 +86,14 @@ def array_field(e, env, depth=0):
         parts = list(sl.elts) if isinstance(sl, ast.Tuple) else [sl]
         full = lambda x: isinstance(x, ast.Slice) and x.lower is None and x.upper is None and x.step is None
         if len(parts) == 1 and not full(parts[0]):
-            if f.selector is not None:
-                raise Undecided(f"`{U(e)[:60]}` selects rows twice")
-            return f.copy(selector=U(parts[0]))
+            return f.copy(selector=_compose(f.selector, parts[0], env))
         if len(parts) == 2:
             r, c = parts
             if not (isinstance(c, ast.Constant) and isinstance(c.value, int)) and not full(c):
                 raise Undecided(f"column selection `{U(c)}` is not a constant")
             out = f
             if not full(r):
-                if f.selector is not None:
-                    raise Undecided(f"`{U(e)[:60]}` selects rows twice")
-                out = out.copy(selector=U(r))
+                out = out.copy(selector=_compose(f.selector, r, env))
             if not full(c):
                 if out.col is not None:
                     raise Undecided(f"`{U(e)[:60]}` selects a column twice")
@@ -107,6 +103,29 @@ def array_field(e, env, depth=0):
             return f
         raise Undecided(f"unsupported subscript `{U(e)[:60]}`")
     raise Undecided(f"`{U(e)[:60]}` is not a data column")
+
+
+def _index_chain(e, env, depth=0):
+    """a row selector as a chain of successive selections: a name bound to `A[B]` with A itself an index vector
+    (X[A][B] == X[A[B]]) is expanded to (A.., B)"""
+    if isinstance(e, ast.Name) and e.id in env and depth < 6:
+        d = env[e.id]
+        if isinstance(d, ast.Subscript) and isinstance(d.value, ast.Name) and d.value.id in env and not isinstance(d.slice, (ast.Tuple, ast.Slice)):
+            base = env[d.value.id]
+            is_index = (isinstance(base, ast.Call) and call_name(base) in ("np.flatnonzero", "np.arange")) or \
+                (isinstance(base, ast.Subscript) and isinstance(base.value, ast.Call) and call_name(base.value) in ("np.where", "np.nonzero")) or \
+                (isinstance(base, ast.Subscript) and isinstance(base.value, ast.Name) and base.value.id in env)
+            if is_index:
+                return _index_chain(d.value, env, depth + 1) + (U(d.slice),)
+    return (U(e),)
+
+
+def _compose(prev, sel, env):
+    chain = _index_chain(sel, env)
+    if prev is None:
+        return chain if len(chain) > 1 else chain[0]
+    p = prev if isinstance(prev, tuple) else (prev,)
+    return p + chain
 
 
 class Stream:
